@@ -525,6 +525,17 @@ def _execute(plan, out, scratch):
         elif entry == "file":
             fn = lambda: ZConfig.loadConfigFile(                      # noqa
                 schema, io.StringIO(text), top, overrides)
+        elif entry == "file-nourl" and plan["realfs"] \
+                and plan.get("run_seed", 0) % 2:
+            # a real file opened from a DESCRIPTOR: its .name is an integer
+            def fn():
+                f = os.fdopen(os.open(_path_of(top), os.O_RDONLY),
+                              encoding="utf-8")
+                try:
+                    return ZConfig.loadConfigFile(schema, f,
+                                                  overrides=overrides)
+                finally:
+                    f.close()
         else:
             fn = lambda: ZConfig.loadConfigFile(                      # noqa
                 schema, io.StringIO(text), overrides=overrides)
